@@ -22,12 +22,25 @@
 (*   a run that RAISES is what the property asks for when the pair cannot be *)
 (*     processed (spec outcome # Correct); on a processable pair the level   *)
 (*     does not exist: oracle:LevelEqualsGlobalDownscale.                    *)
+(* mode "level", method selection: sel = "auto" when the run asked for the   *)
+(*   default method ("auto": get_downscaler("auto", info, options) or the    *)
+(*   compute-scales command line); the harness then records TWO references,  *)
+(*   ref_image (averaging with the configured outside value) and             *)
+(*   ref_segmentation (striding), and the documented selection rule - image  *)
+(*   -> average, otherwise stride - is applied HERE on itype (Ref).          *)
+(* mode "level", fault # "" (last clause of the property): right before the  *)
+(*   step one chunk of the PRECEDING scale was removed / damaged (missing,   *)
+(*   badgzip, truncated), so the pair cannot be processed; ref = the global  *)
+(*   downscale of the intact preceding scale.  Allowed: an error, or a level *)
+(*   equal to that global downscale; a normal return with anything else is   *)
+(*   oracle:FailsInsteadOfWrongData (pos 5: completed and correct).          *)
 (* Silent corruption is a verdict only for pairs the generator emitted       *)
 (* (gen) or that are processable by design; hand-made incompatible pairs are *)
 (* reported through pos (3) - the property quantifies over generated infos.  *)
 (* pos: 0 model and code agree, 1 model Error / code completed correctly,    *)
 (* 2 model SilentWrong / code raised, 3 hand-made pair silently wrong as the *)
 (* model predicts, 4 model Error / code completed with wrong data (hand-made)*)
+(* 5 source fault / code completed with the correct level                    *)
 EXTENDS PyramidAssembly, Json, IOUtils
 
 Cases == ndJsonDeserialize(IOEnv.TRACE_FILE)
@@ -38,12 +51,25 @@ NoSpace == {}
 SpecOutcome(c) == Combine([a \in 1..3 |-> Outcome(c.axes[a])])
 
 \* ---- mode "level" ---------------------------------------------------------
-LevelVerdict(c) ==
+\* the reference of the SELECTED method (documented rule for "auto")
+Ref(c) == IF c.sel = "auto"
+          THEN (IF c.itype = "image" THEN c.ref_image ELSE c.ref_segmentation)
+          ELSE c.ref
+\* a source chunk of the preceding scale is missing / unreadable
+FaultVerdict(c) ==
+  LET spec == SpecOutcome(c)
+      strict == c.gen \/ spec = "Correct"
+      wrong == c.missing > 0 \/ c.a # c.b \/ c.a # Ref(c)
+  IN IF c.raised # "" THEN <<"ok", 0>>
+     ELSE IF ~wrong THEN <<"ok", 5>>
+     ELSE IF strict THEN <<"oracle:FailsInsteadOfWrongData", 0>>
+     ELSE <<"ok", 3>>
+PlainLevelVerdict(c) ==
   LET spec == SpecOutcome(c)
       strict == c.gen \/ spec = "Correct"
       bad == IF c.missing > 0 THEN "oracle:MissingChunk"
              ELSE IF c.a # c.b THEN "oracle:UnwrittenVoxel"
-             ELSE IF c.a # c.ref
+             ELSE IF c.a # Ref(c)
                   THEN (IF spec = "Correct" THEN "oracle:LevelEqualsGlobalDownscale"
                         ELSE "oracle:SilentWrongData")
              ELSE "ok"
@@ -53,6 +79,7 @@ LevelVerdict(c) ==
      ELSE IF bad = "ok" THEN <<"ok", IF spec = "Correct" THEN 0 ELSE 1>>
      ELSE IF strict THEN <<bad, IF spec = "Error" THEN 4 ELSE 0>>
      ELSE <<"ok", IF spec = "SilentWrong" THEN 3 ELSE 4>>
+LevelVerdict(c) == IF c.fault # "" THEN FaultVerdict(c) ELSE PlainLevelVerdict(c)
 
 \* ---- mode "prov" ------------------------------------------------------------
 NSz(ax) == NewSize(ax)
